@@ -31,6 +31,15 @@ import (
 	"github.com/lidofinance/dc4bc/storage"
 )
 
+// vfBeforeStep: a hook run before every step (the adversary edits what the hot nodes hand to the machines)
+var vfBeforeStep func(step int, nodes []*vfCNode)
+
+// vfExpectError[id]: machine id is expected to refuse the step from which the hook deviates
+var vfExpectError map[int]int
+
+// vfPrefixOnly: the round is only the genuine prefix of another scenario (its own obligations are checked elsewhere)
+var vfPrefixOnly bool
+
 const (
 	vfStepCommits = iota
 	vfStepDeals
@@ -244,11 +253,14 @@ func vfPolyCommits(bz []byte, am *Machine) ([][]byte, bool) {
 func VF_Air_Ceremony() {
 	n, t := vf.ParamInt("n"), vf.ParamInt("t")
 	round := "round-one-identifier"
+	// the information-flow obligations (C04) are decided in the jobs without a twin; the twin jobs decide C12
+	vfPrefixOnly = vf.Param("twin") != "" || vf.Param("noleak") != ""
+	defer func() { vfPrefixOnly = false }()
 	var nodes []*vfCNode
 	for i := 0; i < n; i++ {
 		var seed []byte
 		if vf.Symbolic() {
-			seed = vf.Bytes("seed"+strconv.Itoa(i), 32)
+			seed = vf.OpaqueBytes("seed" + strconv.Itoa(i))
 		}
 		nodes = append(nodes, vfNewNode(i, "p"+strconv.Itoa(i), seed, i == 0))
 	}
@@ -486,11 +498,18 @@ func VF_Air_Ceremony() {
 		got, okp := vfPolyCommits(res.ExtraData, fresh.am)
 		vf.Assert("airgapped-reinit-replays-requests:poly", okp && vf.Eq(got, before.Commits))
 		vf.Assert("airgapped-reinit-replays-requests:keyring", vf.Eq(vfKeyring(fresh.am, round), before))
-		// the same operation on the machine that already holds the round: also answers with the public polynomial only
-		res2, err2 := nodes[0].am.GetOperationResult(client.Operation{ID: "operation-reinit-2", Type: client.OperationType(client.ReinitDKG), Payload: []byte("[]"),
-			DKGIdentifier: round, CreatedAt: vf.Time("created.reinit2")})
-		if err2 == nil && res2.Event == client.OperationProcessed {
-			vf.NoLeak("output-indep-of-secret:reinit-existing", res2, vfSecrets(nodes, fresh)...)
+		// the same operation on the machine that already holds the round (a surviving machine, or the reinit file read a
+		// second time): it answers with the round's public polynomial, and with nothing else
+		for i, pl2 := range [][]byte{[]byte("[]"), pl} {
+			res2, err2 := nodes[0].am.GetOperationResult(client.Operation{ID: "operation-reinit-2", Type: client.OperationType(client.ReinitDKG), Payload: pl2,
+				DKGIdentifier: round, CreatedAt: vf.Time("created.reinit2." + strconv.Itoa(i))})
+			ok2 := err2 == nil && res2.Event == client.OperationProcessed
+			vf.Assert("airgapped-reinit-replays-requests:existing-round", ok2)
+			if ok2 {
+				vf.NoLeak("output-indep-of-secret:reinit-existing", res2, vfSecrets(nodes, fresh)...)
+				got2, okp2 := vfPolyCommits(res2.ExtraData, nodes[0].am)
+				vf.Assert("airgapped-reinit-replays-requests:existing-round", okp2 && vf.Eq(got2, before.Commits))
+			}
 		}
 	}
 	// ---- C04(3): at rest ----
@@ -553,12 +572,7 @@ func VF_Air_Ceremony() {
 	vf.Assert("witness", false)
 }
 
-func vfPayload(name string) []byte {
-	if vf.Symbolic() {
-		return vf.Bytes(name, 2)
-	}
-	return []byte(name)
-}
+func vfPayload(name string) []byte { return vf.Bytes(name, 2) }
 
 // vfLastResult: the result operation a machine produces for op in its current state is not kept by ProcessOperation (it goes
 // to the result file); the harness reads the result file back.
@@ -625,11 +639,23 @@ func vfWhy(res client.Operation) {
 
 // vfRound: one DKG round on the given machines (the twin, if any, shadows machine 0 and stops once at stopStep/stopPhase)
 func vfRound(nodes []*vfCNode, round string, t int, twin *vfCNode, stopStep, stopPhase int) bool {
+	return vfRoundN(nodes, round, t, twin, stopStep, stopPhase, vfSteps)
+}
+
+// vfRoundUpto: the first upto steps of a genuine round
+func vfRoundUpto(nodes []*vfCNode, round string, t int, upto int) bool {
+	return vfRoundN(nodes, round, t, nil, -1, 0, upto)
+}
+
+func vfRoundN(nodes []*vfCNode, round string, t int, twin *vfCNode, stopStep, stopPhase int, upto int) bool {
 	n := len(nodes)
 	for _, o := range nodes {
 		o.commits, o.deals, o.responses, o.masterKeys = nil, nil, nil, nil
 	}
-	for step := 0; step < vfSteps; step++ {
+	for step := 0; step < upto; step++ {
+		if vfBeforeStep != nil {
+			vfBeforeStep(step, nodes)
+		}
 		var twinOp client.Operation
 		results := make([]client.Operation, n)
 		for _, o := range nodes {
@@ -653,9 +679,11 @@ func vfRound(nodes []*vfCNode, round string, t int, twin *vfCNode, stopStep, sto
 			results[o.id] = res
 			o.results = append(o.results, res)
 			// C04(1): what leaves the machine
-			vf.NoLeak("output-indep-of-secret:"+vfStepName[step], res, vfSecrets(nodes)...)
+			if !vfPrefixOnly {
+				vf.NoLeak("output-indep-of-secret:"+vfStepName[step], res, vfSecrets(nodes)...)
+			}
 		}
-		if step == vfStepDeals {
+		if step == vfStepDeals && !vfPrefixOnly {
 			// C04(2): each deal opens with the key of the participant it is addressed to, and with no other key
 			for _, m := range results[0].ResultMsgs {
 				var req requests.DKGProposalDealConfirmationRequest
